@@ -90,9 +90,14 @@ func corpusSources() (names []string, srcs []map[string]string) {
 
 // usedModules restricts a source set to the modules the entry module reaches (so that payloads
 // and tags only talk about the program itself).
-func usedModules(src map[string]string) map[string]string {
+func usedModules(src map[string]string) (out map[string]string) {
+	defer func() {
+		if recover() != nil {
+			out = src // the analyzer panicked on a shipped file: keep everything, the worker will report it
+		}
+	}()
 	ao := drive.Analyze(src, "main", true)
-	out := map[string]string{"main": src["main"]}
+	out = map[string]string{"main": src["main"]}
 	for _, n := range ao.Resolved {
 		if s, ok := src[n]; ok {
 			out[n] = s
